@@ -44,6 +44,22 @@ CHECKS["C01"] = dict(
          "leaf lexical forms C06. rpc/encoded arrays: see evidence (extension in progress).",
 )
 
+CHECKS["C09"] = dict(
+    text=("Machine-checked theorems (Coq) over a Gallina model of _SoapClient.send/process_reply/__get_fault, "
+          "Method.__call__, _SimClient.invoke and RequestContext.process_reply: for EVERY integer HTTP status "
+          "(not the 13 sampled ones), body class, faults/retxml setting and delivery path the outcome equals the "
+          "classification table written from the property statement (reply_table, paths_agree, "
+          "fault_never_ordinary, transport_reply_counts_as_200 ...). Status constants are re-read from the AST of "
+          "client.py on every run so that a changed constant re-opens the proof. The full product named in the "
+          "quantifier (13 statuses x 17 bodies x faults x retxml x 5 paths, document and rpc clients; ~15.6k "
+          "cells) is enumerated completely through real clients on every quick run; thorough adds every status "
+          "100..599."),
+    design="DESIGN.md §5 C09",
+    technique="Coq proof of a total classification function over all integers + exhaustive in-Coq correspondence",
+    note="Decoding of the fault/reply payload and XML well-formedness are judged by correspondence (expat as "
+         "independent parser), payloads compared as digests.",
+)
+
 PENDING = {}
 
 
